@@ -1874,7 +1874,7 @@ if PYARROW_INSTALLED and PANDAS_2_0_0_PLUS:
         @classmethod
         def from_parametrized_dtype(cls, pyarrow_dtype: pyarrow.StructType):
             return cls(
-                fields=[pyarrow_dtype.field(i) for i in range(pyarrow_dtype.num_fields)]  # type: ignore
+                fields=tuple(pyarrow_dtype.field(i) for i in range(pyarrow_dtype.num_fields))  # type: ignore
             )
 
     @Engine.register_dtype(
